@@ -72,6 +72,8 @@ type SigEnt struct {
 }
 
 type Req struct {
+	// Ver: judge with this room version's own SignatureValidityCheck instead of Strict
+	Ver    string   `json:"ver"`
 	Srv    string   `json:"srv"`
 	Form   string   `json:"form"`
 	Sigs   []SigEnt `json:"sigs"`
@@ -114,23 +116,12 @@ type RingRec struct {
 
 // ---------------------------------------------------------------- concrete vocabulary
 
-func serverName(s string) spec.ServerName {
-	if s == "s2" {
-		return spec.ServerName("s2.example.org:8448")
-	}
-	return spec.ServerName(s + ".example.org")
-}
-
-func abstractServer(n spec.ServerName) string {
-	return strings.SplitN(string(n), ".", 2)[0]
-}
-
-func edKeyID(kid string) gmsl.KeyID { return gmsl.KeyID("ed25519:" + kid) }
-
-func abstractKid(id gmsl.KeyID) string { return strings.TrimPrefix(string(id), "ed25519:") }
-
 // unsupportedKeyID realises a key ID of an algorithm the key ring does not support.
 func unsupportedKeyID(kid string, variant int) gmsl.KeyID {
+	if variant%2 == 0 {
+		// the same suffix as a supported ID of the message: only the algorithm (or its letter case) differs
+		kid = strings.TrimPrefix(string(edKeyID("k1")), "ed25519:")
+	}
 	switch variant % 4 {
 	case 0:
 		return gmsl.KeyID("rsa:" + kid)
@@ -469,6 +460,9 @@ func runScenario(sc *Scenario, seed int64, idx int) Obs {
 		check := gmsl.SignatureValidityCheckFunc(gmsl.NoStrictValidityCheck)
 		if r.Strict {
 			check = gmsl.StrictValiditySignatureCheck
+		}
+		if r.Ver != "" {
+			check = gmsl.MustGetRoomVersion(gmsl.RoomVersion(r.Ver)).SignatureValidityCheck
 		}
 		reqs[i] = gmsl.VerifyJSONRequest{
 			ServerName:           serverName(r.Srv),
